@@ -183,15 +183,15 @@ def parse_unit(path):
                     err('bad closure directive')
                 cur.closure = (m.group(1), m.group(2).strip())
             elif first == 'assert':
-                m = re.match(r'([\w.\-]+)\s*(?:\[([^\]]*)\])?\s*(after|before|loopend)(?:\[(\d+(?:/\d+)?)\])?\s*(?:`(.*?)`)?\s*:\s*(.*)$', rest, re.S)
+                m = re.match(r'([\w.\-]+)\s*(?:\[([^\]]*)\])?\s*(after|before|loopend)(?:\[(\d+(?:/\d+)?)?(?:@L([\d-]+))?\])?\s*(?:`(.*?)`)?\s*:\s*(.*)$', rest, re.S)
                 if not m:
                     err('bad assert')
                 props = m.group(2).replace(',', ' ').split() if m.group(2) else list(cur.props)
                 c = Clause('assert', cur.qual + '.' + m.group(1), props, '')
-                anchor = ((m.group(5),) + tuple(int(x) for x in m.group(4).split('/'))) if m.group(4) else m.group(5)
-                c.where, c.anchor = m.group(3), anchor
+                anchor = ((m.group(6),) + tuple(int(x) for x in m.group(4).split('/'))) if m.group(4) else m.group(6)
+                c.where, c.anchor, c.inloop = m.group(3), anchor, m.group(5)
                 cur.clauses.append(c)
-                pending = ((lambda c: lambda t: setattr(c, 'text', t))(c), [m.group(6)])
+                pending = ((lambda c: lambda t: setattr(c, 'text', t))(c), [m.group(7)])
             elif first == 'forwhile':
                 mfw = re.match(r'(\d+)\s+as\s+(.+)$', rest.strip())
                 if mfw:
@@ -241,18 +241,21 @@ def parse_unit(path):
                     fn.rewrites.append((rule, mm.group(1), mm.group(2), multi))
                 pending = (setter, [m.group(2)])
             elif first == 'insert':
-                m = re.match(r'(after|before|start|end|loopend|loopstart|loopbefore|loopafter|exhaust)(?:\[(\d+(?:/\d+)?)\])?\s*(?:`(.*?)`)?\s*:\s*(.*)$', rest, re.S)
+                m = re.match(r'(after|before|start|end|loopend|loopstart|loopbefore|loopafter|exhaust)(?:\[(\d+(?:/\d+)?)?(?:@L([\d-]+))?\])?\s*(?:`(.*?)`)?\s*:\s*(.*)$', rest, re.S)
                 if not m:
                     err('bad insert')
-                where, anchor = m.group(1), m.group(3)
+                where, anchor, inloop = m.group(1), m.group(4), m.group(3)
                 if m.group(2):
                     anchor = (anchor,) + tuple(int(x) for x in m.group(2).split('/'))
                 if where in ('loopend', 'loopstart', 'loopbefore', 'loopafter', 'exhaust'):
                     anchor = int(m.group(2) or 0)
 
-                def setter(t, where=where, anchor=anchor, fn=cur):
+                def setter(t, where=where, anchor=anchor, fn=cur, inloop=inloop):
                     fn.inserts.append((where, anchor, t))
-                pending = (setter, [m.group(4)])
+                    if inloop is not None:
+                        fn.inloop = dict(getattr(fn, 'inloop', {}))
+                        fn.inloop[(where, anchor if not isinstance(anchor, list) else tuple(anchor))] = inloop
+                pending = (setter, [m.group(5)])
             i += 1
             continue
         if pending is not None:
@@ -690,6 +693,24 @@ def find_anchor(src, anchor, a, b, what):
         return found[0]
 
 
+def innermost_loop(src, bo, bc, pos):
+    """index (in source order) of the innermost loop of the body (bo, bc) that contains pos, or '-'"""
+    best = '-'
+    for k, (kw_start, kw, lbo, lbc) in enumerate(src.loops(bo, bc)):
+        if lbo < pos <= lbc:
+            best = str(k)
+    return best
+
+
+def check_inloop(src, bo, bc, pos, expected, what):
+    """a positional anchor may state the loop it stands in (`@L1`, `@L-` for none): a statement that was moved across a
+    loop boundary is then a lost anchor - the hint would otherwise be applied to a different loop than it was written for"""
+    if os.environ.get('VERIF_PRINT_INLOOP'):
+        print('INLOOP\t%s\t%s' % (what, innermost_loop(src, bo, bc, pos)), file=sys.stderr)
+    if expected is not None and innermost_loop(src, bo, bc, pos) != expected:
+        raise Lost(f'lost anchor: {what}: expected inside loop {expected}, found inside loop {innermost_loop(src, bo, bc, pos)}')
+
+
 def emit_fn(asm, unit, fs, src, canary):
     out = asm.out
     file_used = fs.file
@@ -923,6 +944,7 @@ def emit_fn(asm, unit, fs, src, canary):
     for where, anchor, text in fs.inserts:
         if where in ('after', 'before'):
             j, alen = find_anchor(src, anchor, bo, bc + 1, f'insert in {fs.qual}')
+            check_inloop(src, bo, bc, j, getattr(fs, 'inloop', {}).get((where, anchor)), f'insert {where} {anchor!r} in {fs.qual}')
             p = j + alen if where == 'after' else j
             ed.edits.append((p, p, '\n' + text + '\n', ('proof', fs.qual)))
         elif where == 'end':
@@ -938,6 +960,7 @@ def emit_fn(asm, unit, fs, src, canary):
                 pos = lps[n][3]
             else:
                 j, alen = find_anchor(src, c.anchor, bo, bc + 1, f'assert {c.cid}')
+                check_inloop(src, bo, bc, j, getattr(c, 'inloop', None), f'assert {c.cid}')
                 pos = j + alen if c.where == 'after' else j
             asm.clauses[c.cid] = c
             ed.edits.append((pos, pos, '\n proof { assert(\n', ('gen',)))
